@@ -30,6 +30,8 @@ UNITS = {
                     cuts=('17_M_realloc_insert', '8_M_eraseEN'), defines=('YK_KEYB=2',)),
     'n_iscan': dict(cpp='harness/n_iscan.cpp', cdefs=('YK_VAL_CAP=136', 'YK_NALLOC=16', 'YK_ARR_CAP=9', 'YK_MEMCPY_CAP=16', 'YK_MEMCMP_CAP=16', 'YK_MAX_LAYERS=1'),
                     cuts=('get_child_of', '17_M_realloc_insert', '8_M_eraseEN', '17_M_reallocate_map', '16_M_push_back_aux', '15_M_pop_back_aux'), defines=('YK_KEYB=2',), new_hints={512: 'iscan_context::stack_element'}),
+    'n_storage': dict(cpp='harness/n_storage.cpp', cdefs=('YK_VAL_CAP=136', 'YK_NALLOC=16', 'YK_ARR_CAP=4', 'YK_MEMCPY_CAP=16', 'YK_MEMCMP_CAP=16'),
+                      cuts=('get_child_of', '8_M_eraseEN', 'delete_ofILb0', 'interior_node9delete_of'), defines=('YK_KEYB=2',)),
     'k_value': dict(cpp='harness/k_value.cpp', cdefs=('YK_VAL_CAP=48',)),
 }
 
@@ -54,6 +56,8 @@ _T0_PUT = [H('n_t1', 'H_t0_put', 'first put into a storage without root (+ get/r
            H('n_t1', 'H_t0d_put', 're-insert into the empty deleted root that removes leave behind behaves like a fresh storage', 'all keys of length 0..8')]
 T15 = 'shape T1(15): ranks 7 and 8 (the neighbours of the split point) symbolic, the other 13 entries concrete 1-byte keys; op key and probe key all byte strings of length 0..8'
 _T1_SPLIT_Q = [H('n_t1s', 'H_t1_split_struct', 'put into a FULL root border: border_split + new interior root: structure, separator bounds, links, flags, C12 reporting', T15, data=16, timeout=900)]
+_T1_SPLIT_Q.append(H('n_t1s', 'H_t1_split_struct_link', 'same with a next-layer link (length class 9) as 9th entry: an 8-byte key with the link\'s slice must go LEFT of it and the separator stays the first key of the right node',
+                      T15 + '; entry 8 is a link with a symbolic slice', data=16, timeout=900))
 _T1_SPLIT_T = [H('n_t1s', 'H_t1_split_probe', 'same step: real get of a symbolic probe key on the split tree == reference map (the new key may sit exactly at the split point)', T15, tier='thorough', data=16, timeout=3400),
                H('n_t1s', 'H_t1_split_probe_scr', 'same with scrambled slots', T15, tier='thorough', data=16, timeout=3400)]
 _T1_BIG = _T1_SPLIT_Q + _T1_SPLIT_T
@@ -67,23 +71,19 @@ _SCAN_Q = [
     H('n_scan', 'H_scan_t1_n1_long', 'same with endpoint keys of up to 264 bytes (the length does not fit the 8-bit key_length_type used inside nodes), forward', 'T1(1); endpoint keys 0..264 bytes (at most one of them longer than 16), bytes beyond the 10th 0x00' + KEYB2, data=1, timeout=900),
     H('n_scan', 'H_scan_t1_n2', 'same on T1(2), scrambled slots', 'T1(2); ' + SCANREQ + KEYB2, data=1, timeout=900),
     H('n_scan3', 'H_scan_t3_11', 'same on an interior root over two borders (scan crosses a node boundary; INF must ignore its key)', 'T3(2;1,1); ' + SCANREQ + KEYB2, data=2, timeout=1500),
-    H('n_scan2', 'H_scan_t2_a1m1', 'same on two layers: root border with one link -> layer-1 border (endpoint translation between layers)', 'T2(1;1): keys of 8..16 bytes; ' + SCANREQ + KEYB2, data=1, recursion=2, timeout=1500),
 ]
+# two-layer shapes (H_scan_t2_*, H_c05_scan_put_t2_*): the recursive scan_border -> scan -> scan_border chain over std::string
+# prefixes does not finish in 1500 s even on T2(1;1); the harnesses stay in harness/n_scan.cpp, unregistered (DESIGN.md 11)
 _SCAN_T = [
     H('n_scan', 'H_scan_t1_n3', 'scan on T1(3)', 'T1(3); ' + SCANREQ + KEYB2, data=1, tier='thorough', timeout=3400),
     H('n_scan3', 'H_scan_t3_12', 'scan on T3(2;1,2)', 'T3(2;1,2); ' + SCANREQ + KEYB2, data=2, tier='thorough', timeout=3400),
-    H('n_scan2', 'H_scan_t2_a2l0m1', 'scan on T2: value entry after the link', 'T2(2,link first;1); ' + SCANREQ + KEYB2, data=1, recursion=2, tier='thorough', timeout=3400),
-    H('n_scan2', 'H_scan_t2_a2l1m2', 'scan on T2: value entry before the link, two sub-entries', 'T2(2,link last;2); ' + SCANREQ + KEYB2, data=1, recursion=2, tier='thorough', timeout=3400),
 ]
 _C05_SCAN_Q = [
     H('n_scan', 'H_c05_scan_put_t1_n1', 'scan with node_version_vec on T1(1), then the real insert of an absent key of the covered interval: some collected pair is stale; set never empty', 'T1(1); ' + SCANREQ + KEYB2, data=1, timeout=900),
-    H('n_scan2', 'H_c05_scan_put_t2_a1m1', 'same on two layers (the read may end on / inside the link; the new key may land in the border that contributed only the link)', 'T2(1;1); ' + SCANREQ + KEYB2, data=1, recursion=2, timeout=1800),
-    H('n_scan3', 'H_c05_scan_put_t3_11', 'same across a node boundary', 'T3(2;1,1); ' + SCANREQ + KEYB2, data=2, timeout=1800),
 ]
 _C05_SCAN_T = [
     H('n_scan', 'H_c05_scan_put_t1_n2', 'scan + insert on T1(2)', 'T1(2); ' + SCANREQ + KEYB2, data=1, tier='thorough', timeout=3400),
-    H('n_scan2', 'H_c05_scan_put_t2_a1m2', 'scan + insert on T2(1;2)', 'T2(1;2); ' + SCANREQ + KEYB2, data=1, recursion=2, tier='thorough', timeout=3400),
-    H('n_scan2', 'H_c05_scan_put_t2_a2l1m1', 'scan + insert on T2(2;1)', 'T2(2;1); ' + SCANREQ + KEYB2, data=1, recursion=2, tier='thorough', timeout=3400),
+    H('n_scan3', 'H_c05_scan_put_t3_11', 'scan + insert across a node boundary', 'T3(2;1,1); ' + SCANREQ + KEYB2, data=2, tier='thorough', timeout=3400),
 ]
 
 I2 = ('all schedules with at most TWO context switches at hook granularity (every atomic load/store of shared memory is a hook): A runs up to a hook, '
@@ -91,15 +91,34 @@ I2 = ('all schedules with at most TWO context switches at hook granularity (ever
       'are case-split over queries (all sites on the path of A, visits 1..2), keys/values symbolic; SC')
 _GET_FUNCS = ['op_getEi$', 'L11find_border', 'border_node9get_lv_ofE']
 _REMOVE_FUNCS = ['op_removeEi$', 'L11find_border', 'border_node9get_lv_ofE', '22get_lv_of_without_lock', 'node_version644lockEv', 'delete_ofILb1', 'lock_parent', 'root_lockEv', 'border_node9delete_atE']
+_C01_Q = [
+    H('i_point', 'H_i_get_remove_a0', 'get(k0) pre-empted at any hook of the get body itself (between locating the slot and the final validation), remove(k1) runs there completely: an OK get has a non-null value with exactly the stored bytes; results linearizable; quiescent state well-formed; no lock left',
+      'T1(2); A=get, B=remove; hook sites inside get<char> (not those inside find_border/get_lv_of: thorough tier), first visit; ' + I2, data=4, sync=2, timeout=1500,
+      windows=dict(funcs=['op_getEi$'], visits=(1,))),
+]
+_C01_PUT = [
+    H('i_point', 'H_i_get_put_a0', 'get(k0) pre-empted at any hook of the get body, put(k1) (insert / overwrite / rejected unique insert) runs there completely: the reader gets the complete old or the complete new (pointer, length), the old block is intact at response time',
+      'T1(2) -> T1(2|3); A=get, B=put; ' + I2, data=4, sync=2, timeout=3000, tier='thorough', windows=dict(funcs=['op_getEi$'], visits=(1,))),
+]
 _C01_I = [
     H('i_point', 'H_i_get_remove_a0', 'get(k0) pre-empted at any hook, remove(k1) runs there completely (same or different key): results linearizable, an OK get has a non-null value with exactly the stored bytes, quiescent state well-formed, no lock left',
-      'T1(2); A=get, B=remove; ' + I2, data=4, sync=2, timeout=1500, windows=dict(funcs=_GET_FUNCS, visits=(1, 2))),
+      'T1(2); A=get, B=remove; ' + I2, data=4, sync=2, timeout=3000, tier='thorough', windows=dict(funcs=_GET_FUNCS, visits=(1, 2))),
     H('i_point', 'H_i_get_remove_a1', 'remove(k1) pre-empted at any hook, get(k0) runs there completely: the reader sees the old or the new state at every intermediate point of the writer',
-      'T1(2); A=remove, B=get; ' + I2, data=4, sync=2, timeout=1500, windows=dict(funcs=_REMOVE_FUNCS, visits=(1,))),
+      'T1(2); A=remove, B=get; ' + I2, data=4, sync=2, timeout=3000, tier='thorough', windows=dict(funcs=_REMOVE_FUNCS, visits=(1,))),
+]
+
+NAMES = 'storage names: all byte strings of 0..8 bytes (binary, empty, prefixes of each other), first 2 bytes of the slice symbolic'
+_C13 = [
+    H('n_storage', 'H_c13_find_get_n1', 'find_storage + data get BY NAME on a directory with one storage: OK/instance iff the name exists, unknown name => WARN_STORAGE_NOT_EXIST, only that storage\'s keys visible', 'directory T1(1), data tree T1(1); ' + NAMES, data=2),
+    H('n_storage', 'H_c13_find_get_n2', 'same with two storages: a key stored under one name is not visible under the other', 'directory T1(2), two data trees T1(1); ' + NAMES, data=2, timeout=900),
+    H('n_storage', 'H_c13_list_n1', 'list_storages: every name, ascending, with its instance (std::vector growth from the IR)', 'directory T1(1); ' + NAMES, data=2, timeout=900),
+    H('n_storage', 'H_c13_list_n2', 'list_storages with two storages', 'directory T1(2); ' + NAMES, data=2, tier='thorough', timeout=3400),
+    H('n_storage', 'H_c13_put_isolated_n1', 'data put BY NAME: lands in the named storage only; unknown name => WARN_STORAGE_NOT_EXIST and nothing changes; the directory is untouched', 'directory T1(1), data tree T1(1); ' + NAMES, data=2, tier='thorough', timeout=3400),
 ]
 
 REGISTRY = {
-    'C01': _C01_I,
+    'C13': _C13,
+    'C01': _C01_Q + _C01_I,
     'C03': _SCAN_Q + _SCAN_T,
     'C05': [
         H('n_t1', 'H_c05_get_miss_put_n1', 'get miss with checked_version on T1(1), then the real insert of that key: the recorded pair is stale', T1B),
@@ -112,7 +131,7 @@ REGISTRY = {
     'C09': [
         H('s_version', 'H_ver_two_lockers_one_reader', 'node lock: two lockers + stable-version reader always complete (fair continuation), lock released, no dirty bit', 'NT=3, CTX=5', sync=3, timeout=900),
         H('s_c14', 'H_c14_concurrent_enter', 'session acquisition never blocks: all enters complete', 'NT=3, CTX=6', sync=3, timeout=1200),
-    ] + _T1_GET + _T1_REMOVE + _T1_PUT,
+    ] + _T1_GET + _T1_REMOVE + _T1_PUT + _C01_Q + [h for h in _C01_I],
     'C20': [
         H('n_misc', 'H_c20_t1_n1', 'real mem_usage (virtual dispatch) on T1(1): values of symbolic length 0..8 and alignment 1..16', 'exact node count / reserved / used bytes', unwind={'_M_realloc': 3}),
         H('n_misc', 'H_c20_t3', 'interior root over two leaves: per-level node counts and footprints', 'T3(2;1,2)', unwind={'_M_realloc': 3}),
@@ -134,7 +153,7 @@ REGISTRY = {
         H('n_c16', 'H_c16_two_cycles', 'real init(); ops; fin(); init(); fin(): fin terminates (thread bodies return), releases everything even with a session left open, next cycle clean', 'sessions=2; 2 cycles'),
     ],
     'C02': _T1_GET + _T1_REMOVE + _T1_PUT + _T0_PUT + _T1_BIG,
-    'C08': _T1_REMOVE + _T1_PUT + _T0_PUT + _T1_BIG,
+    'C08': _T1_REMOVE + _T1_PUT + _T0_PUT + _T1_BIG + [h for h in _SCAN_Q if h['fn'] in ('H_scan_t1_n2', 'H_scan_t3_11')],
     'C12': _T1_PUT + _T0_PUT + _T1_BIG,
     'C15': [
         H('k_value', 'H_val_create_roundtrip', 'value::create_value<false> -> get_body/get_len/get_gc_info/need_delete/delete_value + link_or_value::set_value', 'v_len 0..12 symbolic bytes, align 1..32'),
@@ -176,18 +195,42 @@ REGISTRY = {
 }
 
 LEVEL_TEXT = {
-    'C05': dict(text='get part only: the real get (miss, with checked_version) followed by the real insert of the missed key, from an arbitrary valid state of T1(1), T1(3) and the empty deleted root; '
-                     'the pair is non-null and stale afterwards. The scan and iscan parts of this property are NOT decided (see not_applicable reasons of C03/C10: heap-backed std::string/vector/deque '
-                     'containers); the pinned tree has a reproduced defect there (DESIGN.md section 7, F2) that this check therefore cannot see.',
-                note='Bounds as C02 (one layer, keys 0..8 bytes).', ref='DESIGN.md 4/C05'),
+    'C01': dict(text='Two real point operations on one storage are executed symbolically under EVERY schedule with at most two context switches: the pre-empted operation (A) is the plain '
+                     'translated code; at one hook site (every atomic access to shared memory is a hook; the site and the visit are fixed per query, all sites on A\'s path are enumerated as separate '
+                     'solver queries) the WHOLE other operation (B) is called from inside the hook, then A continues with its optimistic retries enabled. Keys, values and node contents are symbolic. '
+                     'Asserted: results equal one of the serial orders, an OK get returns a non-null pointer to exactly the stored bytes, the quiescent node is well-formed, no lock is left, nobody waits. '
+                     'The solver schedule is replayed on the g++ build (B is called inside the same dynamic hook). This found the null-value defect of get (fixed, known_findings.json).',
+                note='Bounds: pair get||remove on T1(2) (quick: the hook sites of the get body; thorough: all sites of get and, with roles swapped, of remove); at most two context switches, i.e. B is never suspended: '
+                     'a schedule in which B would have to wait for A or to retry on A\'s transient state needs a third switch and is outside the claim, as are put (insert/overwrite/split) pairs, '
+                     'more than two operations, interior nodes and layers; <= 1 optimistic retry of A per path (an assertion reports if more are needed); SC at hook granularity. '
+                     'The free-schedule sequentialization (coroutines, CTX contexts) of the same pair does not finish (DESIGN.md 11). The serial orders are the C02 harnesses.',
+                ref='DESIGN.md 11/C01', sched=True),
+    'C03': dict(text='The real scan<char> (tree-level entry, scan_border, find_border; std::string / std::vector code from the IR, operator new of vector storage as typed arrays) is executed symbolically '
+                     'on directly built shapes with symbolic keys and a symbolic request (both endpoint keys, all nine endpoint-kind pairs, max_size, direction) and compared with a reference that filters the '
+                     'shape\'s entries by bytewise lexicographic order: exact key set, ascending order, value pointer and length, truncation to max_size / greatest entry for right_to_left, INF ignoring its key, '
+                     'ERR_BAD_USAGE exactly for the documented invalid requests, OK_ROOT_IS_NULL on a storage without root.',
+                note='Bounds: shapes T0, T0d, T1(1), T1(2), T3(2;1,1) quick; T1(3), T3(2;1,2) thorough; endpoint keys 0..10 bytes (one harness: 0..264 bytes, the lengths that do not fit key_length_type); '
+                     'stored keys 0..8 bytes with the first two bytes of the slice symbolic. Two-layer shapes (T2) are NOT decided: the recursive layer scan did not finish in 1500 s, so endpoint translation '
+                     'between layers and the reproduced defect F2 (C05) are outside this check. WARN_STORAGE_NOT_EXIST by name is decided under C13. Found and fixed: INF did not ignore l_key (known_findings.json).',
+                ref='DESIGN.md 11/C03'),
+    'C13': dict(text='The directory of storages is built directly (a root border whose values are tree_instance objects, as create_storage leaves it) with symbolic names; then one real call BY NAME: '
+                     'find_storage, data get, data put, list_storages. Asserted: lookup succeeds with the right instance iff the name exists, WARN_STORAGE_NOT_EXIST otherwise; a key of one storage is not '
+                     'visible under another name; a put by name changes only the named storage; list returns every name ascending with its instance.',
+                note='Bounds: 1-2 storages, names 0..8 bytes, data trees T1(1). create_storage / delete_storage (enter + put/remove of a tree_instance + destroy) and the concurrent create/create, '
+                     'delete/delete half are NOT decided here: the tree operations they are built from are decided under C02, session acquisition under C14.', ref='DESIGN.md 11/C13'),
+    'C05': dict(text='(a) get: the real get (miss, with checked_version) followed by the real insert of the missed key, from an arbitrary valid state of T1(1), T1(3) and the empty deleted root: the pair is non-null and stale afterwards. '
+                     '(b) scan: the real scan with node_version_vec under a fully symbolic request (interval, max_size, direction), then the real insert of a symbolic ABSENT key of the covered interval '
+                     '(for a size-limited read: between its start and the last entry produced): some collected (version, node) pair is stale; the set is never empty for an existing storage (also on the empty deleted root).',
+                note='Bounds: T1(1) quick, T1(2) and T3(2;1,1) thorough for (b); keys 0..8 bytes. NOT decided: reads that end on / inside a next-layer link (two-layer shapes do not finish, see C03) - the pinned tree has a reproduced '
+                     'defect exactly there (DESIGN.md section 7, F2: empty / incomplete set) which this check therefore cannot see; and the iscan part (C10 is not decidable with this pipeline).', ref='DESIGN.md 4/C05, 11'),
     'C11': dict(text='Release is decided with a ghost allocator (every operator new/delete variant tracked: live count, sized/aligned delete match, double free): fin() draining retired objects also with a session left open, and per-operation accounting of put/remove (nothing freed in place, failed unique insert leaves nothing behind).',
                 note='Dropping whole trees (border_node::destroy / interior_node::destroy: harness/n_misc.cpp H_c11_drop_*) produced 18k VCCs / 3.6M SAT variables and is not registered; the API-level destroy()/delete_storage()/create_storage() paths (scan over the storages tree, std::string keys) and cursor objects are outside this check; '
                      'the lost root-creation race is outside (kind S on put did not fit the budget).', ref='DESIGN.md 4/C11'),
     'C09': dict(text='(1) lock level: all interleavings (hook granularity, bounded contexts) of two lockers and a reader on the real node_version64, and of three enters on the session table, end with every thread '
                      'finished in the fair continuation and no lock/dirty bit left; (2) single thread: in every kind-N get/put/remove query a wait (SPIN) or an optimistic retry (RETRY hook) is an assertion failure, '
                      'so a reader never waits on something only itself could change.',
-                note='Tree-level writer/writer and writer/reader schedules (parent lock hand-over, prev-sibling lock order) are NOT decided: the kind-S harness on get||remove exceeded the budget (DESIGN.md 2.9). '
-                     'Liveness under every fair schedule is not a bounded property.', ref='DESIGN.md 4/C09', sched=True),
+                note='(3) tree level: in the two-context-switch schedules of get||remove (C01 harnesses) a wait after the other operation completed ("lock left held") and a locked / dirty quiescent node are assertion failures. '
+                     'Writer/writer schedules (parent lock hand-over, prev-sibling lock order, root replacement) are NOT decided. Liveness under every fair schedule is not a bounded property.', ref='DESIGN.md 4/C09, 11', sched=True),
     'C20': dict(text='The real mem_usage traversal (virtual dispatch through the translated vtables, std::vector growth from the IR) is executed symbolically on concrete shapes '
                      'with symbolic keys and symbolic value lengths/alignments and compared with an independent per-level count of nodes and allocated bytes.',
                 note='Shapes T1(1) and T3(2;1,2) (the T1(3) and two-layer T2 harnesses exist in harness/n_misc.cpp but did not finish symex in 15 min - std::vector growth on byte-array heap objects - and are not registered); value lengths 0..8, alignments 1..16; the API wrapper mem_usage(name) adds only find_storage (covered by C13 where registered). '
@@ -214,7 +257,8 @@ LEVEL_TEXT = {
                 ref='DESIGN.md 4/C02'),
     'C08': dict(text='RI(post) - sortedness/uniqueness of entries, separator bounds, parent/child and prev/next consistency, no lock or dirty bit left, no unlinked '
                      'node reachable - and get(probe)==reference are asserted after every symbolic put/remove step from an arbitrary valid state of the shape.',
-                note='Same bounds and trusted base as C02; the concurrent half (quiescent states of schedules) only where a sequentialized harness is registered.', ref='DESIGN.md 4/C08'),
+                note='Same bounds and trusted base as C02; additionally the real scan is compared with the entry enumeration on T1(2) and T3(2;1,1) (scan and get agree with the same reference map). '
+                     'The concurrent half: the quiescent state of every two-switch get||remove schedule is checked against RI under C01.', ref='DESIGN.md 4/C08'),
     'C12': dict(text='For every symbolic put from an arbitrary valid state of the shape the reported modified/created node-version pointers and the stable versions '
                      'of all border nodes before/after are compared: insert changes exactly the reported nodes, overwrite and rejected unique-insert change none.',
                 note='Same bounds and trusted base as C02.', ref='DESIGN.md 4/C12'),
@@ -246,11 +290,9 @@ _SCAN = ('scan/iscan build their results in std::string / std::vector<std::tuple
 _TREE_S = ('needs a sequentialized schedule over whole tree operations: the kind-S encoding exists (harness/s_point.cpp, nested coroutines) but symex of get||remove on T1(2) '
            'alone does not finish in the budget once the version word flows through symbolic contexts (DESIGN.md 10.2); the lock/session/epoch protocols it builds on are decided under C17, C14, C07')
 NOT_APPLICABLE = {
-    'C01': _TREE_S,
-    'C03': _SCAN,
-    'C04': _TREE_S + '; and ' + _SCAN,
-    'C06': _TREE_S + '; and ' + _SCAN,
-    'C10': _SCAN + ' (iscan additionally uses std::function and std::deque)',
-    'C13': 'the storage API composes several tree operations on the storages tree plus scan (list_storages, destroy) in one call: outside the reach established for single operations (DESIGN.md 10.2); '
-           'the tree operations it is built from are decided under C02',
+    'C04': 'concurrent scan: the only schedule encoding that finishes for tree operations (intruder mode, two context switches, DESIGN.md 11) costs 400-700 k SSA steps per hook site for get||remove; '
+           'with scan as the pre-empted operation (std::string/vector state carried across the switch) no window finished in 1500 s, and the free-schedule sequentialization does not finish even for get||remove',
+    'C06': 'same as C04 (scan with node_version_vec concurrent with an insert); the sequential half (a later insert invalidates the collected set) is decided under C05',
+    'C10': 'the cursor code (iscan_findfirst/iscan_findnext: a goto-structured state machine with ~15 retry back edges, std::deque stack, std::function callback) does not finish symbolic execution in 600 s '
+           'even for the smallest run (one entry, full interval: harness/n_iscan.cpp H_iscan_min, ~450 instructions/s); typed deque nodes, a heap-capable std::string model and extra RETRY hooks were added and did not change that',
 }
